@@ -1,5 +1,6 @@
 import RepidModel.Driver.State
 import RepidModel.Worker.Chain
+import RepidModel.Pred.Worker
 
 namespace Repid.Driver
 open Repid Sexp Wire Worker
@@ -51,6 +52,11 @@ def catOf' : Sexp → Option Mem.Cat
   | .atom "DEAD" => some .dead
   | _ => none
 
+def obsOf : Sexp → Option Pred.C04.Obs
+  | .list [a, b, c, d] => do
+    pure { tried := ← toInt? a, start := ← toInt? b, fin := ← toInt? c, failed := ← toBool? d }
+  | _ => none
+
 def worker : String → List Sexp → Option Sexp
   -- (proc.process <P> now policyNext hasBroker storeFails <outcome>)
   | "proc.process", [p, now, pn, hb, sf, o] => do
@@ -71,6 +77,31 @@ def worker : String → List Sexp → Option Sexp
     let h : Handle := { category := ← catOf' cat }
     let rs := h.calls p (← toInt? now) cronStub (← toInt? dflt) (← mapM? apiOf seq)
     pure (ofList (fun | .ok b => .list [.atom "ok", bcallTo b] | .error r => .list [.atom "err", refusalTo r]) rs)
+  -- (c04.chainOk maxN recurring (pol1 pol2 …) ((tried start fin failed)…) final)
+  | "c04.chainOk", [mx, rec, pol, xs, fin] => do
+    let pol ← mapM? toInt? pol
+    let xs ← mapM? obsOf xs
+    let final ← match fin with
+      | .atom "acked" => some Pred.C04.Final.acked
+      | .atom "dead" => some .dead
+      | .atom "rescheduled" => some .rescheduled
+      | .atom "other" => some .other
+      | _ => none
+    let polf : Int → Int := fun k => (pol[(k - 1).toNat]?).getD 0
+    pure (ofBool (Pred.C04.chainOk (← toInt? mx) (← toBool? rec) polf xs final))
+  | "c06.successorOk", [now, per, ts0, du, p] => do
+    let per ← toInt? per
+    if per ≤ 0 then none
+    pure (ofBool (Pred.C06.successorOk (← toInt? now) per (← toInt? ts0) (← toOpt? toInt? du) (← paramsOf p)))
+  | "c06.spacingOk", [a, b, per] => do
+    pure (ofBool (Pred.C06.spacingOk (← toInt? a) (← toInt? b) (← toInt? per)))
+  -- (c16.orderOk (pre…) (ran…)) with ran = ((cb id) | (store flag))…
+  | "c16.orderOk", [pre, ran] => do
+    let ran ← mapM? (fun x => match x with
+      | .list [.atom "cb", i] => (toNat? i).map fun n => Cb.user n false
+      | .list [.atom "store", s] => (toBool? s).map Cb.store
+      | _ => none) ran
+    pure (ofBool (Pred.C16.orderOk (← mapM? preOf pre) ran))
   | _, _ => none
 
 end Repid.Driver
